@@ -29,6 +29,7 @@ impl log4rs::append::Append for Capture {
 }
 
 #[derive(serde::Deserialize)]
+#[serde(deny_unknown_fields)]
 pub struct CaptureConfig {
     tag: String,
 }
